@@ -311,8 +311,27 @@ def parsePath (path : Str) : Res (PType × Str) :=
 /-! ### the storage layout (specification, independent of the regexps) -/
 
 def validHexB (h : Str) : Bool := lowerAlnum1 h && digestOk h
-def validTagB (t : Str) : Bool := !t.isEmpty && !hasNewline t
-def validUUIDB (u : Str) : Bool := !u.isEmpty && u != sUploads
+def isTagFirst (c : Char) : Bool := isAlnum c || c == '_'
+def isTagChar (c : Char) : Bool := isAlnum c || c == '_' || c == '.' || c == '-'
+
+/-- the Docker tag grammar `[A-Za-z0-9_][A-Za-z0-9_.-]{0,127}`: 1 to 128 characters -/
+def validTagB (t : Str) : Bool :=
+  match t with
+  | [] => false
+  | c :: cs => isTagFirst c && cs.all isTagChar && decide (cs.length ≤ 127)
+
+def isLowerHex (c : Char) : Bool :=
+  (decide (48 ≤ c.toNat) && decide (c.toNat ≤ 57)) || (decide (97 ≤ c.toNat) && decide (c.toNat ≤ 102))
+
+/-- an upload id is a UUID in its canonical text form: 36 characters, '-' at 8, 13, 18, 23, lower-case hex elsewhere -/
+def validUUIDB (u : Str) : Bool :=
+  decide (u.length = 36) &&
+  (List.range 36).all fun i =>
+    let c := u.getD i ' '
+    if i = 8 ∨ i = 13 ∨ i = 18 ∨ i = 23 then c == '-' else isLowerHex c
+
+/-- Docker limits a repository name to 255 characters in total -/
+def maxRepoLength : Nat := 255
 
 /-- a storage root: something non-empty, no marker element, no newline -/
 def goodRoot (pre : List Str) : Bool :=
@@ -324,6 +343,7 @@ def goodRepoDir (front : List Str) : Bool :=
   let pre := front.takeWhile (fun c => c != sRepositories)
   match front.dropWhile (fun c => c != sRepositories) with
   | _ :: repo => goodRoot pre && !repo.isEmpty && repo.all (fun c => !c.isEmpty && !isMarker c) && !hasNewline (joinSlash repo)
+      && decide ((joinSlash repo).length ≤ maxRepoLength)
   | [] => false
 
 /-! one recogniser per layout entry, on the reversed element list -/
